@@ -282,10 +282,11 @@ structure Honest (P : Params H) (D : List Bytes) (S : Server) (stN : List H) : P
   hsz : 0 < P.hashSize
   hret : 1 ≤ P.retries
   hkey : Note.NewVerifier P.sha P.edVerify (GoStrings.trimSpace S.keyFile) = .ok S.v
-  tiles : ∀ t x, trueTile stN t = some x →
+  tiles : ∀ t x, ValidTile t → trueTile stN t = some x →
     ∃ d, S.serve (tileRemotePath t) = some d ∧ decodeTile P d = x ∧ d.length = t.w * P.hashSize
   lookups : ∀ rest id, S.index (B "/lookup/" ++ rest) = some id →
     ∃ d, S.serve (B "/lookup/" ++ rest) = some d ∧ HonestLookup P D S (B "/lookup/" ++ rest) d
+  unknown : ∀ rest, S.index (B "/lookup/" ++ rest) = none → S.serve (B "/lookup/" ++ rest) = none
 
 /-- the invariant of the honest run -/
 structure HW (P : Params H) (D : List Bytes) (S : Server) (stN : List H) (w : World HState H) : Prop where
@@ -363,11 +364,11 @@ theorem readTileWork_honest (P : Params H) (D : List Bytes) (S : Server) (stN : 
         omega
       | none =>
         rw [h2] at hr; simp only at hr
-        obtain ⟨d, hd1, hd2, hd3⟩ := hon.tiles t x hx
+        obtain ⟨d, hd1, hd2, hd3⟩ := hon.tiles t x ht hx
         rw [hd1] at hr; simp only at hr; subst hr
         exact ⟨d, rfl, ⟨by rw [hd2]; exact hx, hd3⟩, (by constructor <;> first | rfl | exact hname.symm), rfl, rfl⟩
     · simp only [hfull, Bool.false_eq_true, if_false] at hr
-      obtain ⟨d, hd1, hd2, hd3⟩ := hon.tiles t x hx
+      obtain ⟨d, hd1, hd2, hd3⟩ := hon.tiles t x ht hx
       rw [hd1] at hr; simp only at hr; subst hr
       exact ⟨d, rfl, ⟨by rw [hd2]; exact hx, hd3⟩, (by constructor <;> first | rfl | exact hname.symm), rfl, rfl⟩
 
@@ -877,7 +878,8 @@ theorem lookupValidate_honest (P : Params H) (D : List Bytes) (S : Server) (stN 
     exact ⟨rfl, k2, g3.trans k3.mid'⟩
   | true =>
     simp only [if_true] at hr; subst hr
-    refine ⟨rfl, ⟨k2.latest, k2.cfg, ?_, k2.tileCache, k2.record⟩, g3.trans k3.mid'⟩
+    refine ⟨rfl, ⟨k2.latest, k2.cfg, ?_, k2.tileCache, k2.record⟩,
+      (g3.trans k3.mid').trans ⟨rfl, rfl, rfl, rfl, Nat.le_refl _⟩⟩
     intro f d' hf
     simp only [writeCache, honestEnv, List.lookup] at hf
     split at hf
@@ -888,5 +890,224 @@ theorem lookupValidate_honest (P : Params H) (D : List Bytes) (S : Server) (stN 
       exact Or.inr ⟨rest, rfl, ⟨id, n, head, text, hidn, hsig, htext, hparse, by assumption⟩⟩
     · exact k2.cache f d' hf
 
+/-- the function `Lookup` passes to `c.record.Do`, honest world -/
+theorem lookupWork_honest (P : Params H) (D : List Bytes) (S : Server) (stN : List H) (hon : Honest P D S stN)
+    (w : World HState H) (hw : HW P D S stN w) (hname : w.c.name = S.v.name) (hvs : w.c.verifiers = [S.v]) (rest : Bytes) :
+    HW P D S stN (lookupWork P (honestEnv S) w (S.v.name ++ (B "/lookup/" ++ rest)) (B "/lookup/" ++ rest)).2 ∧
+    HMid w (lookupWork P (honestEnv S) w (S.v.name ++ (B "/lookup/" ++ rest)) (B "/lookup/" ++ rest)).2 ∧
+    ((∃ d, (lookupWork P (honestEnv S) w (S.v.name ++ (B "/lookup/" ++ rest)) (B "/lookup/" ++ rest)).1 = .ok d ∧
+        HonestLookup P D S (B "/lookup/" ++ rest) d) ∨
+     ((∃ e, (lookupWork P (honestEnv S) w (S.v.name ++ (B "/lookup/" ++ rest)) (B "/lookup/" ++ rest)).1 = .error e) ∧
+        S.index (B "/lookup/" ++ rest) = none)) := by
+  generalize hr : lookupWork P (honestEnv S) w (S.v.name ++ (B "/lookup/" ++ rest)) (B "/lookup/" ++ rest) = r
+  simp only [lookupWork] at hr
+  have hrc : ∀ x : World HState H, readCache (honestEnv S) x (S.v.name ++ (B "/lookup/" ++ rest)) =
+      (x.s.cache.lookup (S.v.name ++ (B "/lookup/" ++ rest)),
+        World.mk x.s x.c (x.tr ++ [.read .cache (S.v.name ++ (B "/lookup/" ++ rest))
+          (x.s.cache.lookup (S.v.name ++ (B "/lookup/" ++ rest))).isSome])) := fun x => rfl
+  have hrr : ∀ x : World HState H, readRemote (honestEnv S) x (B "/lookup/" ++ rest) =
+      (S.serve (B "/lookup/" ++ rest),
+        World.mk x.s x.c (x.tr ++ [.read .remote (B "/lookup/" ++ rest) (S.serve (B "/lookup/" ++ rest)).isSome])) := fun x => rfl
+  rw [hrc] at hr; simp only at hr
+  have hwt : ∀ tr1, HW P D S stN (World.mk w.s w.c tr1) := fun _ => ⟨hw.latest, hw.cfg, hw.cache, hw.tileCache, hw.record⟩
+  have hmt : ∀ tr1, HMid w (World.mk w.s w.c tr1) := fun _ => ⟨rfl, rfl, rfl, rfl, Nat.le_refl _⟩
+  cases hc : w.s.cache.lookup (S.v.name ++ (B "/lookup/" ++ rest)) with
+  | some data =>
+    rw [hc] at hr; simp only at hr
+    have hd : HonestLookup P D S (B "/lookup/" ++ rest) data := by
+      rcases hw.cache _ _ hc with ⟨t, _, hk, _⟩ | ⟨rest', hk, hl⟩
+      · exact absurd hk (lookupFile_ne_tileKey _ _ _)
+      · have := List.append_cancel_left (List.append_cancel_left hk)
+        subst this; exact hl
+    obtain ⟨a, b, c⟩ := lookupValidate_honest P D S stN hon (World.mk w.s w.c _) (hwt _) (by exact hname) (by exact hvs) rest data hd false r hr
+    exact ⟨b, (hmt _).trans c, Or.inl ⟨data, a, hd⟩⟩
+  | none =>
+    rw [hc, hrr] at hr; simp only at hr
+    cases hidx : S.index (B "/lookup/" ++ rest) with
+    | none =>
+      rw [hon.unknown rest hidx] at hr; simp only at hr; subst hr
+      exact ⟨hwt _, hmt _, Or.inr ⟨⟨_, rfl⟩, rfl⟩⟩
+    | some id =>
+      obtain ⟨data, hsv, hd⟩ := hon.lookups rest id hidx
+      rw [hsv] at hr; simp only at hr
+      obtain ⟨a, b, c⟩ := lookupValidate_honest P D S stN hon (World.mk w.s w.c _) (hwt _) (by exact hname) (by exact hvs) rest data hd true r hr
+      exact ⟨b, (hmt _).trans c, Or.inl ⟨data, a, hd⟩⟩
+
+/-- the honest-run invariant between two calls of `Lookup` -/
+structure HI (P : Params H) (D : List Bytes) (S : Server) (stN : List H) (w : World HState H) : Prop where
+  hw : HW P D S stN w
+  ready : w.c.inited = none ∨ (w.c.inited = some none ∧ w.c.verifiers = [S.v] ∧ w.c.name = S.v.name)
+
+theorem lookup_cons_bytes {β : Type} (f g : Bytes) (b : β) (l : List (Bytes × β)) :
+    ((f, b) :: l).lookup g = if g = f then some b else l.lookup g := by
+  simp only [List.lookup]
+  by_cases h : g = f
+  · subst h; simp
+  · have : (g == f) = false := by simpa using h
+    simp [this, h]
+
+/-- ★ one `Lookup` in the honest world: the invariant is kept, and a lookup of a module the server has a record for
+    (not excluded by GONOSUMDB, escapable) returns exactly the lines, with the prefix `path vers `, of an honest
+    response for it -/
+theorem lookup_honest (P : Params H) (D : List Bytes) (S : Server) (stN : List H) (hon : Honest P D S stN)
+    (w : World HState H) (hi : HI P D S stN w) (path vers : Bytes) :
+    HI P D S stN (lookup P (honestEnv S) w path vers).2 ∧
+    ∀ epath evers id, Module.matchPrefixPatterns P.glob P.nosumdb path = false →
+      Module.escapePath path = .ok epath → Module.escapeVersion P.isLetter (trimGoMod vers) = .ok evers →
+      S.index (B "/lookup/" ++ (epath ++ ([64] ++ evers))) = some id →
+      ∃ d, HonestLookup P D S (B "/lookup/" ++ (epath ++ ([64] ++ evers))) d ∧
+        (lookup P (honestEnv S) w path vers).1 = .ok (filterLines (path ++ [32] ++ vers ++ [32]) d) := by
+  generalize hr : lookup P (honestEnv S) w path vers = r
+  simp only [lookup] at hr
+  by_cases hskip : Module.matchPrefixPatterns P.glob P.nosumdb path = true
+  · rw [if_pos hskip] at hr; subst hr
+    exact ⟨hi, by intro _ _ _ h; rw [hskip] at h; cases h⟩
+  · rw [if_neg hskip] at hr
+    -- initialisation succeeds (or has succeeded)
+    have hinit : HW P D S stN (init P (honestEnv S) w) ∧ (init P (honestEnv S) w).c.inited = some none ∧
+        (init P (honestEnv S) w).c.verifiers = [S.v] ∧ (init P (honestEnv S) w).c.name = S.v.name := by
+      unfold init
+      rcases hi.ready with h0 | ⟨h1, h2, h3⟩
+      · rw [h0]; simp only
+        obtain ⟨a, b, c, d, _⟩ := initWork_honest P D S stN hon w hi.hw
+        exact ⟨a, b, c, d⟩
+      · rw [h1]; simp only; exact ⟨hi.hw, h1, h2, h3⟩
+    obtain ⟨hw1, hin1, hvs1, hname1⟩ := hinit
+    have hi1 : HI P D S stN (init P (honestEnv S) w) := ⟨hw1, Or.inr ⟨hin1, hvs1, hname1⟩⟩
+    rw [hin1] at hr; simp only at hr
+    cases hep : Module.escapePath path with
+    | error e =>
+      rw [hep] at hr; simp only at hr; subst hr
+      exact ⟨hi1, by intro _ _ _ _ h; cases h⟩
+    | ok epath =>
+      rw [hep] at hr; simp only at hr
+      cases hev : Module.escapeVersion P.isLetter (trimGoMod vers) with
+      | error e =>
+        rw [hev] at hr; simp only at hr; subst hr
+        exact ⟨hi1, by intro _ _ _ _ _ h; cases h⟩
+      | ok evers =>
+        rw [hev] at hr; simp only at hr
+        have hrp : B "/lookup/" ++ epath ++ [64] ++ evers = B "/lookup/" ++ (epath ++ ([64] ++ evers)) := by
+          simp only [List.append_assoc]
+        rw [hrp, hname1] at hr
+        cases hlk : (init P (honestEnv S) w).c.record.lookup (S.v.name ++ (B "/lookup/" ++ (epath ++ ([64] ++ evers)))) with
+        | some res =>
+          rw [hlk] at hr; simp only at hr
+          rcases hw1.record _ res hlk with ⟨d, hd1, hd2⟩ | ⟨⟨e, he⟩, hnone⟩
+          · subst hd1; simp only at hr; subst hr
+            refine ⟨hi1, ?_⟩
+            intro ep ev id _ h1 h2 _
+            cases h1; cases h2
+            exact ⟨d, hd2, rfl⟩
+          · subst he; simp only at hr; subst hr
+            refine ⟨hi1, ?_⟩
+            intro ep ev id _ h1 h2 h3
+            cases h1; cases h2
+            rw [hnone] at h3; cases h3
+        | none =>
+          rw [hlk] at hr; simp only at hr
+          obtain ⟨g1, g2, g3⟩ := lookupWork_honest P D S stN hon _ hw1 hname1 hvs1 (epath ++ ([64] ++ evers))
+          -- the result is recorded in c.record
+          have hrec : ∀ (res : Except Err Bytes),
+              ((∃ d, res = .ok d ∧ HonestLookup P D S (B "/lookup/" ++ (epath ++ ([64] ++ evers))) d) ∨
+                ((∃ e, res = .error e) ∧ S.index (B "/lookup/" ++ (epath ++ ([64] ++ evers))) = none)) →
+              ∀ (x : World HState H), HW P D S stN x →
+              HW P D S stN (World.mk x.s { x.c with record := (S.v.name ++ (B "/lookup/" ++ (epath ++ ([64] ++ evers))), res) :: x.c.record } x.tr) := by
+            intro res hres x hx
+            refine ⟨hx.latest, hx.cfg, hx.cache, hx.tileCache, ?_⟩
+            intro rest' r' hl'
+            simp only at hl'
+            rw [lookup_cons_bytes] at hl'
+            split at hl'
+            · rename_i heq
+              cases hl'
+              have := List.append_cancel_left (List.append_cancel_left heq)
+              subst this
+              exact hres
+            · exact hx.record rest' r' hl'
+          rcases g3 with ⟨d, hd1, hd2⟩ | ⟨⟨e, he⟩, hnone⟩
+          · rw [hd1] at hr; simp only at hr; subst hr
+            refine ⟨⟨hrec _ (Or.inl ⟨d, rfl, hd2⟩) _ g1, Or.inr ⟨by simp only; rw [g2.inited]; exact hin1,
+              by simp only; rw [g2.verifiers]; exact hvs1, by simp only; rw [g2.name]; exact hname1⟩⟩, ?_⟩
+            intro ep ev id _ h1 h2 _
+            cases h1; cases h2
+            exact ⟨d, hd2, rfl⟩
+          · rw [he] at hr; simp only at hr; subst hr
+            refine ⟨⟨hrec _ (Or.inr ⟨⟨e, rfl⟩, hnone⟩) _ g1, Or.inr ⟨by simp only; rw [g2.inited]; exact hin1,
+              by simp only; rw [g2.verifiers]; exact hvs1, by simp only; rw [g2.name]; exact hname1⟩⟩, ?_⟩
+            intro ep ev id _ h1 h2 h3
+            cases h1; cases h2
+            rw [hnone] at h3; cases h3
+
+/-- the honest initial state: the stored head is empty or a signed head of `D`, every cache file is honest -/
+def HonestState (P : Params H) (D : List Bytes) (S : Server) (stN : List H) (s : HState) : Prop :=
+  (s.latest = [] ∨ ∃ m, Signed P D S s.latest m) ∧ ∀ f d, s.cache.lookup f = some d → HonestFile P D S stN f d
+
+theorem hi_newClient (P : Params H) (D : List Bytes) (S : Server) (stN : List H) (s : HState)
+    (hs : HonestState P D S stN s) : HI P D S stN ⟨s, newClient P, []⟩ :=
+  ⟨⟨⟨0, Nat.zero_le _, by simp [newClient, rootAt_zero], fun h => absurd rfl h⟩, hs.1, hs.2,
+    by intro t r h; simp [newClient] at h, by intro rest r h; simp [newClient] at h⟩, Or.inl rfl⟩
+
+theorem hi_runLookups (P : Params H) (D : List Bytes) (S : Server) (stN : List H) (hon : Honest P D S stN) :
+    ∀ (qs : List (Bytes × Bytes)) (w : World HState H), HI P D S stN w → HI P D S stN (runLookups P (honestEnv S) w qs) := by
+  intro qs
+  induction qs with
+  | nil => intro w h; exact h
+  | cons q qs ih => intro w h; exact ih _ (lookup_honest P D S stN hon w h q.1 q.2).1
+
 end
+
+/-! ### helpers for the non-vacuity instance of Props/C01.lean (a log of one record) -/
+
+theorem storedHashIndex_eq_zero (l k : Nat) (h : storedHashIndex l k = 0) : l = 0 ∧ k = 0 := by
+  have h1 := Props.C09.split_storedHashIndex l k (by rw [h]; decide)
+  rw [h] at h1
+  have h2 : splitStoredHashIndex 0 = .ok (0, 0) := by decide +kernel
+  rw [h2] at h1
+  simp only [Except.ok.injEq, Prod.mk.injEq] at h1
+  exact ⟨h1.1.symm, h1.2.symm⟩
+
+/-- in the log of one record the only valid tiles that exist are the width-1 tiles at level 0, number 0 -/
+theorem trueTile_single (a : UInt8) (t : Tile) (ht : ValidTile t) (x : List UInt8) (h : trueTile [a] t = some x) :
+    x = [a] ∧ t.w = 1 := by
+  have hw0 : (t.w == 0) = false := by have := ht.2.1.1; simp; omega
+  unfold trueTile readTileData at h
+  simp only [hw0, Bool.false_eq_true, if_false] at h
+  unfold readChecked storeReader at h
+  cases hm : ((List.range t.w).map fun i => storedHashIndex (t.h * t.l) ((t.n <<< t.h) + i)).mapM ([a][·]?) with
+  | none => simp [hm] at h
+  | some r =>
+    have hlen := mapM_length' _ _ _ hm
+    simp only [hm, hlen, bne_self_eq_false, Bool.false_eq_true, if_false] at h
+    cases h
+    have hget := (TileAuth.mapM_option_get _ _ _ hm).2
+    have hw1 : t.w = 1 := by
+      apply Nat.le_antisymm _ ht.2.1.1
+      apply Nat.le_of_not_lt
+      intro h2
+      obtain ⟨b, _, hb⟩ := hget 1 (storedHashIndex (t.h * t.l) ((t.n <<< t.h) + 1))
+        (by simp [List.getElem?_map, List.getElem?_range h2])
+      have hz : storedHashIndex (t.h * t.l) ((t.n <<< t.h) + 1) = 0 := by
+        cases hi : storedHashIndex (t.h * t.l) ((t.n <<< t.h) + 1) with
+        | zero => rfl
+        | succ j => rw [hi] at hb; simp at hb
+      have := (storedHashIndex_eq_zero _ _ hz).2
+      exact Nat.succ_ne_zero _ this
+    refine ⟨?_, hw1⟩
+    rw [hw1] at hm
+    obtain ⟨b, hb1, hb2⟩ := mapM_single _ _ _ (by simpa using hm)
+    have hz : storedHashIndex (t.h * t.l) (t.n <<< t.h) = 0 := by
+      cases hi : storedHashIndex (t.h * t.l) (t.n <<< t.h) with
+      | zero => rfl
+      | succ j => rw [hi] at hb1; simp at hb1
+    rw [hz] at hb1
+    simp at hb1
+    rw [hb2, ← hb1]
+
+theorem isPrefixOfB_append (a b : Bytes) : isPrefixOfB a (a ++ b) = true := by
+  induction a with
+  | nil => simp [isPrefixOfB]
+  | cons x xs ih => simp [isPrefixOfB, ih]
+
+
 end ModVerif.Client
